@@ -42,10 +42,12 @@ type ftEnv struct {
 	lb     *loadbalancer.LoadBalancer
 	closed atomic.Bool
 	base   int // goroutines right after construction
+	hits        atomic.Int64 // client requests (not probes) that reached the backend
 	healthDelay atomic.Int64 // ms the backend takes to answer an active probe (still 200)
 }
 
 var ft *ftEnv
+var ftEpoch = time.Now()
 
 const ftBig = 4 << 20
 
@@ -65,6 +67,7 @@ func (e *ftEnv) serveConn(c net.Conn) {
 		_, _ = io.WriteString(c, "HTTP/1.1 200 OK\r\nContent-Length: 0\r\nConnection: close\r\n\r\n")
 		return
 	}
+	e.hits.Add(1)
 	if req.ContentLength != 0 {
 		go func() { _, _ = io.Copy(io.Discard, req.Body) }()
 	}
@@ -85,6 +88,10 @@ func (e *ftEnv) serveConn(c net.Conn) {
 		_, _ = io.WriteString(c, "HTTP/1.1 200 OK\r\nContent-Length: 100\r\nContent-Type: text/plain\r\n\r\n0123456789")
 	case "garbage":
 		_, _ = io.WriteString(c, "\x00\x01garbage that is not HTTP\r\n\r\n")
+	case "i503":
+		// an interim response first, then the failure
+		_, _ = io.WriteString(c, "HTTP/1.1 103 Early Hints\r\nLink: </s.css>; rel=preload\r\n\r\n")
+		_, _ = io.WriteString(c, "HTTP/1.1 503 Service Unavailable\r\nContent-Length: 4\r\nConnection: close\r\n\r\nfail")
 	case "s500":
 		_, _ = io.WriteString(c, "HTTP/1.1 500 Internal Server Error\r\nContent-Length: 4\r\nConnection: close\r\n\r\nfail")
 	case "slow":
@@ -310,7 +317,7 @@ func ftOp(w []string) string {
 		if ok {
 			r = "ended=1"
 		}
-		return fmt.Sprintf("%s || fault=%s class=%s ms=%d", r, w[1], class, ms)
+		return fmt.Sprintf("%s || fault=%s class=%s ms=%d hits=%d at=%d", r, w[1], class, ms, e.hits.Load(), time.Since(ftEpoch).Milliseconds())
 	case len(w) == 3 && w[0] == "conc":
 		n, err := strconv.Atoi(w[1])
 		if err != nil || n < 1 || n > 64 {
